@@ -31,7 +31,8 @@ CR    == E.ev = "cellr" /\ Step(P!HCellR(mon, E.t))
 Call  == /\ E.ev = "call"
          /\ Step(IF E.op = "set" THEN P!HCallSet(mon, E.t, E.id) ELSE P!HCallRead(mon, E.t))
 Ret   == /\ E.ev = "ret"
-         /\ Step(CASE E.op = "set" -> P!HRetSet(mon, E.t, E.id)
+         /\ Step(CASE E.r = "panic" -> P!HRetPanic(mon, E.t)
+                   [] E.op = "set" -> P!HRetSet(mon, E.t, E.id)
                    [] E.r \in {"some", "true"} -> P!HRetSome(mon, E.t, E.id)
                    [] OTHER -> P!HRetNone(mon, E.t))
 Skip  == E.ev \in {"note", "step"} /\ Step(mon)
